@@ -56,10 +56,23 @@ def gen_src_engine():
     return p.returncode, p.stdout
 
 
+def gen_c03():
+    """C03: SrcEngine.lean (loop nests) + regenerate lean/RSVerif/Gen/SrcKernel.lean (per-chunk kernels of all families)"""
+    rc, out = gen_src_engine()
+    if rc != 0:
+        return rc, out
+    o = os.path.join(VERIF, "lean", "RSVerif", "Gen", "SrcKernel.lean")
+    p = subprocess.run([sys.executable, os.path.join(VERIF, "translate", "rs2lean_kernel.py"), "/repo", o],
+                       stdout=subprocess.PIPE, stderr=subprocess.STDOUT, text=True)
+    return p.returncode, out + p.stdout
+
+
 TECH_TRE = ("Lean 4 machine-checked proof; the transform loop nests of the Naive / NoSimd / Ssse3 / Avx2 engines (nested while/for "
             "loops, skew-table indexes, dist2_mut / dist4_mut / split_at_mut views, GF_MODULUS shortcuts) are TRANSLATED from the "
             "current Rust source on every run (translate/rs2lean_engine.py -> Gen/SrcEngine.lean: shard-operation programs) and "
-            "proved equal to the model transforms; kernels and the rest on a hand-written model + differential correspondence")
+            "proved equal to the model transforms; the per-chunk kernels of Ssse3 / Avx2 / Neon / NoSimd and utils::xor are TRANSLATED too "
+            "(translate/rs2lean_kernel.py -> Gen/SrcKernel.lean: intrinsic by intrinsic, with the documented semantics of the intrinsics) "
+            "and proved equal to each other and to the field butterflies; the rest on a hand-written model + differential correspondence")
 
 
 def gen_src_default():
@@ -203,7 +216,7 @@ PROPS = {
         "either schedule. Direct oracle: engine vs engine (6 engines incl. Neon source on emulated intrinsics) on primitives (contract-valid "
         "outputs + frame) and end to end; model schedule vs implementation lane by lane.",
         "cases = primitive calls (fft/ifft/mul/eval_poly with generated parameters) on every engine + mixed-engine round trips; distinct by parameters",
-        pre_lean=gen_src_engine, technique=TECH_TRE, extra_targets=["srcengine"],
+        pre_lean=gen_c03, technique=TECH_TRE, extra_targets=["srcengine"],
         design_ref="DESIGN.md §6 C03",
     ),
     "C04": P(
